@@ -378,12 +378,11 @@ impl AsmLine {
 
     /// Find offset between label reference and current line while checking bounds
     fn bit_offs(&self, ref_label: &Label, bits: u32) -> Result<u16> {
-        let label_pos = match ref_label {
-            Label::Ref(val) => val,
+        let offset = match ref_label {
+            Label::Ref(label_pos) => *label_pos as i32 - self.line as i32 - 1,
+            Label::Offset(offset) => *offset as i32,
             Label::Unfilled(_) => panic!("Tried to offset unfilled label"),
         };
-        // Lines are kept modulo 2^16 (literal offsets rely on this), so is the difference
-        let offset = label_pos.wrapping_sub(self.line).wrapping_sub(1) as i16 as i32;
         // Must fit in specified offset bits
         let limit = 1i32 << (bits - 1);
         if offset < -limit || offset >= limit {
@@ -392,7 +391,7 @@ impl AsmLine {
                 r#"Difference between label and label reference is too large: at line {}, referencing line {}
                 Please note that this could be because of a long .stringz literal or large .blkw allocation."#,
                 self.line,
-                label_pos
+                self.line as i32 + 1 + offset
             )
         }
         Ok((offset as u16) & (2u16.pow(bits) - 1))
